@@ -551,3 +551,47 @@ class ExperimentCopyIndependent(E2Contract):
                 eq("editing-the-copy-leaves-the-original", out["after_copy_edit"], True, "assigning into the copy's lists does not change the original experiment"),
                 eq("data-generation-leaves-the-tomography-object", out["after_generation"], True,
                    "generating the distributions of a candidate object leaves the tomography object's experiment (in particular the empty slot of the unknown) as it was")]
+
+
+class MProcessCopyIndependent(E2Contract):
+    """MProcess.copy() of a sampling measurement process that owns a Generator: the copy has its own generator (drawing from the copy does not
+    advance the original's stream) and its own HS arrays"""
+    name = "MProcess.copy (sampling mode)"
+    prop = "C13"
+    targets = ("quara.objects.mprocess:MProcess.copy", "quara.objects.mprocess:MProcess._copy", "quara.objects.mprocess:MProcess.set_mode_sampling")
+    frame = False
+    n_conformance = 0
+    max_paths = 16
+
+    def configs(self, tier):
+        return ["generator", "int-seed"]
+
+    def inputs(self, W, cfg, mk):
+        return dict(probe=mk.real("probe"))
+
+    def run(self, W, cfg, inp):
+        np = W.np
+        c_sys = make_csys(W, "1q")
+        hss = [np.array([[0.5, 0, 0, 0.5], [0, 0, 0, 0], [0, 0, 0, 0], [0.5, 0, 0, 0.5]], dtype=np.float64),
+               np.array([[0.5, 0, 0, -0.5], [0, 0, 0, 0], [0, 0, 0, 0], [-0.5, 0, 0, 0.5]], dtype=np.float64)]
+        rnd = np.random
+        src = rnd.Generator(rnd.MT19937(3)) if cfg == "generator" else 3
+        mp = W.mod("quara.objects.mprocess").MProcess(c_sys, hss, mode_sampling=True, random_seed_or_generator=src, is_physicality_required=False)
+        state = W.mod("quara.objects.state").State(c_sys, np.array([1, 0.3, 0.2, 0.1], dtype=np.float64) / np.sqrt(2), is_physicality_required=False)
+        cp = mp.copy()
+        pos = (lambda g: g.pos) if W.symbolic else (lambda g: str(g.bit_generator.state))
+        stream = mp._random_state
+        before = pos(stream)
+        W.mod("quara.objects.operators").compose_qoperations(cp, state)
+        after = pos(stream)
+        shared_gen = cfg == "generator" and cp.random_seed_or_generator is mp.random_seed_or_generator
+        shared_arrays = any(a is b for a, b in zip(cp.hss, mp.hss))
+        return dict(original_stream_untouched=before == after, shared_gen=bool(shared_gen), shared_stream=cp._random_state is mp._random_state,
+                    shared_arrays=shared_arrays, mode=cp.mode_sampling)
+
+    def post(self, W, cfg, inp, out):
+        return [eq("drawing-from-the-copy-leaves-the-original-stream", out["original_stream_untouched"], True,
+                   "sampling an outcome with the copy does not advance the original's random stream"),
+                eq("copy-owns-its-generator", [out["shared_gen"], out["shared_stream"]], [False, False], "the copy shares neither the generator object nor the stream"),
+                eq("copy-owns-its-arrays", out["shared_arrays"], False, "the copy's HS arrays are its own"),
+                eq("mode-kept", out["mode"], True, "the copy samples as the original does")]
